@@ -207,6 +207,125 @@ def observe_public_defaults(rng):
     return recs
 
 
+def _sparse_dispatch_group(seed, r, c, dens, cplx):
+    import scipy.sparse as sp
+    import quimb as qu
+
+    rng = np.random.default_rng(seed)
+    recs = []
+    nnz = int(r * c * dens)
+    rows = rng.integers(0, r, size=nnz)
+    cols = rng.integers(0, c, size=nnz)
+    vals = rng.integers(-3, 4, size=nnz).astype(complex if cplx else float)
+    if cplx:
+        vals = vals + 1j * rng.integers(-2, 3, size=nnz)
+    A = sp.csr_matrix((vals, (rows, cols)), shape=(r, c))
+    Ac = sp.coo_matrix(A)
+    for xkind in ("1d", "col", "qarray"):
+        x = rng.integers(-3, 4, size=c).astype(complex if cplx else float)
+        if xkind != "1d":
+            x = x.reshape(-1, 1)
+        if xkind == "qarray":
+            x = qu.qarray(x)
+        ref = np.asarray(Ac @ np.asarray(x))
+        for how, call in (("A@x", lambda: A @ x), ("A.dot(x)", lambda: A.dot(x)), ("qu.dot", lambda: qu.dot(A, x))):
+            exc, worst = "", 0
+            try:
+                for _ in range(3):
+                    got = np.asarray(call())
+                    if got.shape != ref.shape:
+                        worst = max(worst, 10 ** 6)
+                    else:
+                        worst = max(worst, qdiff(got, ref, 1e-11))
+            except Exception as ex:  # noqa
+                exc = type(ex).__name__
+            recs.append({"ev": "kernel", "tid": 0, "name": "default:csr(%dx%d)%s %s" % (r, c, how, xkind), "size": r, "nt": 0,
+                         "target": c, "dtype": "complex128" if cplx else "float64", "dq": int(worst), "exc": exc})
+    return recs
+
+
+def observe_sparse_dispatch(rng, quick):
+    """`A @ x`, `A.dot(x)` and `qu.dot(A, x)` on a csr matrix with more than 50000 stored entries go to the threaded
+    kernel through quimb's wrapper of scipy's csr * vector; judged against the same product on a coo copy (which scipy
+    multiplies serially) - integer data, so the comparison is exact.  Each matrix is handled in a child process: a
+    kernel that reads out of bounds kills the child, which is then an observation (exc = "Signal...") and not the end
+    of the check."""
+    import json
+    import subprocess
+    import sys
+
+    recs = []
+    shapes = [(700, 700, 0.12), (300, 2000, 0.1), (2000, 300, 0.1)] if quick else \
+        [(700, 700, 0.12), (300, 2000, 0.1), (3000, 200, 0.1), (60000, 3, 0.5), (2, 60000, 0.6), (1, 70000, 0.9), (70000, 1, 0.9)]
+    for (r, c, dens) in shapes:
+        for cplx in (False, True):
+            sd = int(rng.integers(1 << 30))
+            code = ("import json, sys; from qv.props.c16 import _sparse_dispatch_group as g; "
+                    "print('QVOUT' + json.dumps(g(%d, %d, %d, %r, %r)))" % (sd, r, c, dens, cplx))
+            p = subprocess.run([sys.executable, "-c", code], capture_output=True, text=True, timeout=900)
+            out = [ln for ln in p.stdout.splitlines() if ln.startswith("QVOUT")]
+            if p.returncode == 0 and out:
+                recs += json.loads(out[-1][5:])
+            else:
+                recs.append({"ev": "kernel", "tid": 0, "name": "default:csr(%dx%d) A@x" % (r, c), "size": r, "nt": 0, "target": c,
+                             "dtype": "complex128" if cplx else "float64", "dq": 0,
+                             "exc": "Signal%d" % -p.returncode if p.returncode < 0 else "ChildExit%d" % p.returncode})
+    return recs
+
+
+def observe_gen_builders(rng, quick):
+    """quimb.gen.operators Hamiltonians assembled from terms in worker threads (parallel=True, any nthreads, any
+    ownership slice) against the serial assembly of the same call."""
+    import quimb as qu
+
+    recs = []
+
+    def one(name, D, w, f_par, f_ser):
+        exc, d = "", 0
+        try:
+            ref = f_ser()
+            ref = ref.toarray() if hasattr(ref, "toarray") else np.asarray(ref)
+            for _ in range(2):
+                got = f_par()
+                got = got.toarray() if hasattr(got, "toarray") else np.asarray(got)
+                d = max(d, 10 ** 6 if got.shape != ref.shape else qdiff(got, ref, 1e-11))
+        except Exception as ex:  # noqa
+            exc = type(ex).__name__
+        recs.append({"ev": "genbuilder", "tid": 0, "name": name, "D": int(D), "world": int(w), "dq": int(d), "exc": exc})
+
+    ns = [2, 3, 5] if quick else [2, 3, 4, 5, 7, 9]
+    for n in ns:
+        for cyc in (False, True):
+            for sparse in (False, True):
+                for nth in ([1, 3] if quick else [1, 2, 3, 5, 8]):
+                    j = tuple(float(v) for v in rng.integers(-2, 3, size=3))
+                    b = tuple(float(v) for v in rng.integers(-1, 2, size=3))
+                    kw = dict(j=j, b=b, cyclic=cyc, sparse=sparse)
+                    one("ham_heis(n=%d,cyclic=%s,sparse=%s)" % (n, cyc, sparse), 2 ** n, nth,
+                        lambda: qu.ham_heis(n, parallel=True, nthreads=nth, **kw), lambda: qu.ham_heis(n, parallel=False, **kw))
+                    qu.ham_heis.cache_clear()
+        one("ham_hubbard_hardcore(n=%d)" % n, 2 ** n, 0,
+            lambda: qu.ham_hubbard_hardcore(n, t=1.0, V=2.0, mu=-1.0, cyclic=bool(n % 2), parallel=True, sparse=True),
+            lambda: qu.ham_hubbard_hardcore(n, t=1.0, V=2.0, mu=-1.0, cyclic=bool(n % 2), parallel=False, sparse=True))
+        qu.ham_hubbard_hardcore.cache_clear()
+    for (a, b_) in ([(2, 2), (2, 3)] if quick else [(2, 2), (2, 3), (3, 2), (3, 3), (2, 4)]):
+        for cyc in ((False, False), (True, False), (True, True)):
+            one("ham_heis_2D(%dx%d,cyclic=%s)" % (a, b_, cyc), 2 ** (a * b_), 0,
+                lambda: qu.ham_heis_2D(a, b_, j=(1.0, 2.0, -1.0), bz=0.5, cyclic=cyc, parallel=True, sparse=True),
+                lambda: qu.ham_heis_2D(a, b_, j=(1.0, 2.0, -1.0), bz=0.5, cyclic=cyc, parallel=False, sparse=True))
+    # ownership slices: the rows a worker / MPI rank owns, assembled in parallel = the same rows of the full operator
+    for n in ([4] if quick else [4, 6]):
+        full = qu.ham_heis(n, sparse=True, cyclic=True).toarray()
+        qu.ham_heis.cache_clear()
+        D = 2 ** n
+        for (lo, hi) in [(0, D), (0, D // 2), (D // 2, D), (3, D - 5), (D - 1, D)]:
+            one("ham_heis(n=%d,ownership=(%d,%d))" % (n, lo, hi), D, 2,
+                lambda: qu.ham_heis(n, sparse=True, cyclic=True, parallel=True, nthreads=2, ownership=(lo, hi)),
+                lambda: full[lo:hi, :])
+            qu.ham_heis.cache_clear()
+    return recs
+
+
 def observe_reduce(rng, lens, nts):
     from quimb.core import par_reduce
 
@@ -315,6 +434,8 @@ def run(ctx):
     krecs += observe_public_defaults(rng)
     krecs += observe_reduce(rng, range(1, 10 if quick else 18), [1, 2, 3, 4, 8] if quick else [1, 2, 3, 4, 5, 8, 16])
     krecs += observe_builder(rng, [1, 2, 3, 5, 8] if quick else [1, 2, 3, 4, 5, 7, 8, 16, True], quick)
+    krecs += observe_sparse_dispatch(rng, quick)
+    krecs += observe_gen_builders(rng, quick)
     ctx.sample({"kernel": krecs[7]})
     ctx.sample({"kernel": krecs[-1]})
     fails += ctx.validate("C16_Trace", "Trace.cfg", krecs, name="kernels", ntraces=1)
@@ -326,7 +447,7 @@ def run(ctx):
     ctx.extra["model_drift_points"] = len(notes)
     ctx.extra["partition_points"] = sum(1 for r in recs if r["ev"] == "partition")
     ctx.extra["kernel_cases"] = len(krecs)
-    ctx.clauses.update(["ExactCover", "RangesTile", "KernelEqualsSerial", "ReduceEqualsSerial", "BuilderEqualsSerial",
+    ctx.clauses.update(["ExactCover", "RangesTile", "KernelEqualsSerial", "ReduceEqualsSerial", "BuilderEqualsSerial", "GenBuilderEqualsSerial",
                         "model: PlanCovers NoDoubleWrite SerialAtReturn NoSwallowedFail"])
     ctx.assumptions += [
         "real thread interleavings are sampled by repetition; all interleavings are explored in the TLC model only",
